@@ -4,6 +4,7 @@ package main
 
 import (
 	"fmt"
+	"os"
 	"strconv"
 	"strings"
 	"sync/atomic"
@@ -348,6 +349,24 @@ func (p *Path) violate(label string, extra []*B) bool {
 	case Unknown:
 		h.inconclusive(fmt.Sprintf("violation candidate %q could not be confirmed exactly (%s)", label, how))
 		return false
+	}
+	if os.Getenv("VERIF_DEBUG") != "" {
+		mm := &Model{p: p, m: m}
+		fmt.Fprintf(os.Stderr, "DEBUG violate %q how=%s script=%v\n", label, how, p.script)
+		for k, v := range m {
+			if k[0] != 'a' {
+				fmt.Fprintf(os.Stderr, "   %s=%q", k, v)
+			}
+		}
+		fmt.Fprintln(os.Stderr)
+		for _, l := range p.links {
+			fmt.Fprintf(os.Stderr, "  link v%d=%d [%d,%d] s=%v -> %q canon=%v\n", l.v, mm.ivar(l.v), p.ivars[l.v].lo, p.ivars[l.v].hi, p.res(l.s), mm.nf(p.res(l.s)), l.canon)
+		}
+		for _, in := range p.inputs {
+			if in.kind == 's' {
+				fmt.Fprintf(os.Stderr, "  input %s atom a%d -> %v = %q\n", in.name, in.atom, p.res(NF{{atom: in.atom}}), mm.atomVal(in.atom))
+			}
+		}
 	}
 	c := p.caseFromModel(&Model{p: p, m: m})
 	v := &Violation{Harness: h.spec.Func, Property: h.spec.Property, Label: label, Known: append([]string{}, p.known...),
